@@ -83,6 +83,44 @@ NP_KERNELS = [
                        'estimator': ('ext_estimator', [py2lean.CUMMAT, 'Int', 'L[Int]', 'L[Int]', 'Int'], 'Dict',
                                      ['cummat', 'start', 'states_from', 'states_to', 'steps'])})),
     ]),
+    ('md/comparison.py', 'MdCompareApi', None, [
+        ('_compare_discretization', dict(
+            lean_name='compare_discretization_symmetric', consts={'method': 'symmetric'}, ret='Rat',
+            param_names=['traj1_index_trajs_flatten', 'traj1_nstates', 'traj2_index_trajs_flatten', 'traj2_nstates', 'cfg_disable_jit'],
+            params=['L[Int]', 'Int', 'L[Int]', 'Int', 'Bool'],
+            objects={'traj1': {'attrs': {'index_trajs_flatten': 'L[Int]', 'nstates': 'Int'}}, 'traj2': {'attrs': {'index_trajs_flatten': 'L[Int]', 'nstates': 'Int'}}},
+            flags={'numba.config.DISABLE_JIT': 'cfg_disable_jit'},
+            scalar_calls=['_intersect_array', '_compare_trajs_symmetric', '_compare_trajs_directed'],
+            fuel='(traj1_index_trajs_flatten).length + (traj2_index_trajs_flatten).length + 1')),
+        ('_compare_discretization', dict(
+            lean_name='compare_discretization_directed', consts={'method': 'directed'}, ret='Rat',
+            param_names=['traj1_index_trajs_flatten', 'traj1_nstates', 'traj2_index_trajs_flatten', 'traj2_nstates', 'cfg_disable_jit'],
+            params=['L[Int]', 'Int', 'L[Int]', 'Int', 'Bool'],
+            objects={'traj1': {'attrs': {'index_trajs_flatten': 'L[Int]', 'nstates': 'Int'}}, 'traj2': {'attrs': {'index_trajs_flatten': 'L[Int]', 'nstates': 'Int'}}},
+            flags={'numba.config.DISABLE_JIT': 'cfg_disable_jit'},
+            scalar_calls=['_intersect_array', '_compare_trajs_symmetric', '_compare_trajs_directed'],
+            fuel='(traj1_index_trajs_flatten).length + (traj2_index_trajs_flatten).length + 1')),
+    ]),
+    ('md/timescales.py', 'MdTimesApi', None, [
+        ('estimate_waiting_times', dict(
+            ret='L[Int]', param_names=['trajs_states', 'trajs_iter', 'start', 'final', 'cfg_disable_jit'],
+            params=['L[Int]', 'L[L[Int]]', 'L[Int]', 'L[Int]', 'Bool'],
+            objects={'trajs': {'attrs': {'states': 'L[Int]'}, 'iter': 'L[L[Int]]'}}, flags={'numba.config.DISABLE_JIT': 'cfg_disable_jit'},
+            scalar_calls=['_estimate_waiting_times'])),
+        ('estimate_paths', dict(
+            ret='L[T[L[Int],L[Int]]]', param_names=['trajs_states', 'trajs_iter', 'start', 'final', 'cfg_disable_jit'],
+            params=['L[Int]', 'L[L[Int]]', 'L[Int]', 'L[Int]', 'Bool'],
+            objects={'trajs': {'attrs': {'states': 'L[Int]'}, 'iter': 'L[L[Int]]'}}, flags={'numba.config.DISABLE_JIT': 'cfg_disable_jit'},
+            scalar_calls=['_estimate_paths'])),
+    ]),
+    ('md/corrections.py', 'MdCoringApi', None, [
+        ('dynamical_coring', dict(
+            ret='L[L[Int]]', param_names=['trajs_states', 'trajs_index_trajs', 'trajs_iter', 'trajs_is_lumped', 'lagtime', 'iterative', 'cfg_disable_jit'],
+            params=['L[Int]', 'L[L[Int]]', 'L[L[Int]]', 'Bool', 'Int', 'Bool', 'Bool'],
+            objects={'trajs': {'attrs': {'states': 'L[Int]', 'index_trajs': 'L[L[Int]]'}, 'iter': 'L[L[Int]]',
+                               'isinstance': {'LumpedStateTraj': 'trajs_is_lumped'}}},
+            flags={'numba.config.DISABLE_JIT': 'cfg_disable_jit'}, scalar_calls=['_dynamical_coring'])),
+    ]),
     ('statetraj.py', 'StateTrajHS', 'LumpedStateTraj', [
         ('_estimate_markov_model', dict(
             params=['L[L[Rat]]'], ret='L[L[Rat]]',
@@ -99,6 +137,14 @@ XREF = {
     'mh.utils.tests.is_ergodic': ('UtilsTests', 'is_ergodic'),
     'tests.is_ergodic': ('UtilsTests', 'is_ergodic'),
     'tests.ergodic_mask': ('UtilsTests', 'ergodic_mask'),
+}
+SCALAR = {
+    '_intersect_array': ('MdComparison', 'intersect_array', True, ['L[L[Int]]', 'L[L[Int]]'], 'L[L[Rat]]'),
+    '_compare_trajs_symmetric': ('MdComparison', 'compare_trajs_symmetric', False, ['L[Int]', 'L[Int]', 'L[L[Rat]]', 'L[L[Rat]]'], 'Rat'),
+    '_compare_trajs_directed': ('MdComparison', 'compare_trajs_directed', False, ['L[Int]', 'L[Int]', 'L[L[Rat]]', 'L[L[Rat]]'], 'Rat'),
+    '_estimate_waiting_times': ('MdTimescales', 'estimate_waiting_times', False, ['L[L[Int]]', 'L[Int]', 'L[Int]'], 'L[Int]'),
+    '_estimate_paths': ('MdTimescales', 'estimate_paths', False, ['L[L[Int]]', 'L[Int]', 'L[Int]'], py2lean.PATHS),
+    '_dynamical_coring': ('MdCorrections', 'dynamical_coring', False, ['L[L[Int]]', 'Int', 'Bool'], 'L[L[Int]]'),
 }
 REGISTRY = {}      # (ns, name) -> NpFn, filled while translating (modules are translated in table order)
 
@@ -204,7 +250,28 @@ class _Prep(ast.NodeTransformer):
             return ast.copy_location(ast.Name(id='%s_%s' % (node.value.id, node.attr.lstrip('_')), ctx=ast.Load()), node)
         return self.generic_visit(node)
 
+    def visit_Compare(self, node):
+        node = self.generic_visit(node)
+        if len(node.ops) == 1 and isinstance(node.left, ast.Constant):
+            r = node.comparators[0]
+            o = node.ops[0]
+            if isinstance(r, ast.Constant) and isinstance(o, (ast.Eq, ast.NotEq)):
+                v = (node.left.value == r.value)
+                return ast.copy_location(ast.Constant(value=v if isinstance(o, ast.Eq) else not v), node)
+            if isinstance(r, (ast.Set, ast.Tuple, ast.List)) and all(isinstance(x, ast.Constant) for x in r.elts) and isinstance(o, (ast.In, ast.NotIn)):
+                v = node.left.value in [x.value for x in r.elts]
+                return ast.copy_location(ast.Constant(value=v if isinstance(o, ast.In) else not v), node)
+        return node
+
     def visit_Call(self, node):
+        d = _dotted(node.func)
+        if d == 'isinstance' and len(node.args) == 2 and isinstance(node.args[0], ast.Name) and node.args[0].id in self.objects:
+            flag = self.objects[node.args[0].id].get('isinstance', {}).get(_dotted(node.args[1]))
+            if flag:
+                return ast.copy_location(ast.Name(id=flag, ctx=ast.Load()), node)
+        if d in ('StateTraj', 'mh.StateTraj') and len(node.args) == 1 and self.objects and \
+                not (isinstance(node.args[0], ast.Name) and node.args[0].id in self.objects):
+            return self.visit(node.args[0])          # a new object made from a list of label trajectories is represented by that list
         # keep `obj.method(...)` intact (resolved by the expression compiler), rewrite only the arguments
         if isinstance(node.func, ast.Attribute) and isinstance(node.func.value, ast.Name) and node.func.value.id in self.objects \
                 and node.func.attr not in self.objects[node.func.value.id].get('attrs', {}):
@@ -231,6 +298,9 @@ class _Prep(ast.NodeTransformer):
         if isinstance(t, ast.Constant) and isinstance(t.value, bool):
             return node.body if (t.value != neg) else (node.orelse or None)
         return node
+
+    def visit_Raise(self, node):
+        return node            # messages (format strings mentioning object attributes) are never evaluated
 
 
 def prepare(node, sig):
@@ -262,6 +332,8 @@ class NpFn(Fn):
         self.cls = cls
         node = prepare(node, sig)
         self.lean_name = sig.get('lean_name')
+        self.scalar_calls = set(sig.get('scalar_calls', []))
+        self.fuel_expr = sig.get('fuel', '0')
         self.methods = sig.get('methods', {})       # obj.method → (namespace, function, [object attributes passed as the callee's self attributes])
         self.selfattrs = [(a, parse_type(t)) for a, t in sig.get('selfattrs', [])]
         self.externals = {k: (v[0], [parse_type(p) for p in v[1]], parse_type(v[2])) for k, v in sig.get('externals', {}).items()}
@@ -629,6 +701,19 @@ class NpFn(Fn):
                     cs.append(self.coerce(c, t, pt))
                 c, t = eff('MsmVerif.Gen.%s.%s %s' % (callee.ns, callee.lname_def(), ' '.join(cs)), callee.ret)
                 return pre, c, t
+            if name in self.scalar_calls:
+                ns2, fn2, fuel, pts, rt = SCALAR[name]
+                cs = []
+                for x, pt in zip(args, pts):
+                    c, t = sub(x, want=parse_type(pt))
+                    cs.append(self.coerce(c, t, parse_type(pt)))
+                if len(cs) != len(pts) or kw:
+                    raise Unsupported('%s: call of kernel %s' % (self.name, name))
+                fl = (' (%s)' % self.fuel_expr) if fuel else ''
+                c, t = eff('MsmVerif.Gen.%s.%s%s %s' % (ns2, fn2, fl, ' '.join(cs)), parse_type(rt))
+                return pre, c, t
+            if name == 'defaultdict' and len(args) == 1 and isinstance(args[0], ast.Name) and args[0].id == 'list':
+                return pre, '([] : List (List Int × List Int))', ('L', ('T', ('L', 'Int'), ('L', 'Int')))
             if name == 'intersect' and len(args) == 2:
                 # `from msmhelper.md.comparison import _intersect as intersect` : the translated kernel (scalar dialect, fuel-bounded while loop)
                 a, ta = sub(args[0])
@@ -1055,6 +1140,21 @@ class NpFn(Fn):
 
         if isinstance(s, ast.For) and isinstance(s.iter, ast.Tuple):
             s = ast.For(target=s.target, iter=ast.List(elts=s.iter.elts, ctx=ast.Load()), body=s.body, orelse=s.orelse)
+        if isinstance(s, ast.Expr) and isinstance(s.value, ast.Call) and isinstance(s.value.func, ast.Attribute) and s.value.func.attr == 'append' \
+                and isinstance(s.value.func.value, ast.Subscript) and isinstance(s.value.func.value.value, ast.Name):
+            # `d[tuple(k)].append(v)` on a defaultdict(list): grouping by key, keys in order of first appearance
+            dn = s.value.func.value.value.id
+            if self.env.get(dn) == ('L', ('T', ('L', 'Int'), ('L', 'Int'))):
+                ke = s.value.func.value.slice
+                if isinstance(ke, ast.Call) and self._callname(ke) == 'tuple' and len(ke.args) == 1:
+                    ke = ke.args[0]
+                pk, ck, tk = self.ex(ke)
+                pv, cv, tv = self.ex(s.value.args[0])
+                if tk != ('L', 'Int') or tv != 'Int':
+                    raise Unsupported('%s: grouping key/value of type %s / %s' % (self.name, tk, tv))
+                emit_pre(pk); emit_pre(pv)
+                out.append(sp + '%s := pyGroupAppend %s %s %s' % (self.lname(dn), self.lname(dn), ck, cv))
+                return out
         if isinstance(s, ast.Assign) and len(s.targets) == 1:
             t = s.targets[0]
             if isinstance(t, ast.Name):
